@@ -1,10 +1,10 @@
 SPECIFICATION Spec
 CONSTANTS
-  MintLower = "MINT"
+  MintLower = "MINT_LOW"
   Accounts <- AllAccounts
   Thorough = TRUE
-VIEW ReplayView
+
 INVARIANTS HistoryOK ModuleAccountEmpty ThresholdInv
-PROPERTIES SpecSatisfiesLenses StepwiseIsRun UsedMonotone FailedFree
+PROPERTIES SpecSatisfiesLenses StepwiseIsRun DepositAcceptIff RollbackExact DepositAllOrNothing OutboundContent
 ACTION_CONSTRAINT EmitEdge
 CHECK_DEADLOCK FALSE
